@@ -39,6 +39,8 @@ pub struct GenOpts {
     /// number of small non-recursive helper nonterminals spliced into the
     /// alternatives of the others (inlining candidates, C14)
     pub helpers: usize,
+    /// C13: prefer conditional macros and make sure every macro is instantiated
+    pub macro_focus: bool,
 }
 
 impl GenOpts {
@@ -69,6 +71,7 @@ impl GenOpts {
             fallible_chance: 40,
             clone_only_loc: false,
             helpers: 0,
+            macro_focus: false,
         }
     }
     pub fn plain() -> GenOpts {
@@ -98,6 +101,7 @@ impl GenOpts {
             fallible_chance: 0,
             clone_only_loc: false,
             helpers: 0,
+            macro_focus: false,
         }
     }
 }
@@ -431,7 +435,11 @@ impl<'t, 'a> G<'t, 'a> {
         for _ in 0..n {
             let idx = self.spec.nts.len();
             let lits: Vec<usize> = (0..self.spec.terms.len()).filter(|&i| self.spec.terms[i].spell.starts_with('"')).collect();
-            let kind = self.t.below(if lits.is_empty() { 4 } else { 6 });
+            let kind = if self.o.macro_focus && !lits.is_empty() && self.t.chance(150) {
+                4 + self.t.below(2)
+            } else {
+                self.t.below(if lits.is_empty() { 4 } else { 6 })
+            };
             let sep = self.term();
             let nt = match kind {
                 // Pair<X, Y> = X Y;   (tuple, inferred)
@@ -670,6 +678,40 @@ pub fn gen_full(t: &mut Tape, o: &GenOpts) -> GSpec {
         };
         g.spec.nts[ni].alts = alts;
         g.spec.nts[ni].ty = ty;
+    }
+    // C13: every macro gets at least two instantiations with different arguments
+    if g.o.macro_focus {
+        let macros = g.macros.clone();
+        for m in macros {
+            for round in 0..2 {
+                let arity = g.spec.nts[m].params.len();
+                let mut args = vec![];
+                for pi in 0..arity {
+                    if g.spec.nts[m].params[pi].starts_with('K') {
+                        let lits: Vec<usize> =
+                            (0..g.spec.terms.len()).filter(|&i| g.spec.terms[i].spell.starts_with('"')).collect();
+                        if lits.is_empty() {
+                            args.clear();
+                            break;
+                        }
+                        args.push(SymKind::T(lits[(g.t.below(lits.len()) + round) % lits.len()]));
+                    } else if g.t.chance(128) {
+                        args.push(g.term());
+                    } else {
+                        args.push(g.base(true));
+                    }
+                }
+                if args.len() != arity {
+                    continue;
+                }
+                let lead = SymKind::T((m + round) % g.spec.terms.len());
+                let alt = AltSpec::new(
+                    vec![SymSpec::plain(lead), SymSpec::plain(SymKind::Macro(m, args))],
+                    Act::User { fallible: false, style: Style::Angle },
+                );
+                g.spec.nts[0].alts.push(alt);
+            }
+        }
     }
     // helper nonterminals (small, non-recursive, user actions) spliced into others
     let n_helpers = if g.o.helpers > 0 { 1 + g.t.below(g.o.helpers) } else { 0 };
